@@ -5,120 +5,201 @@ ENTRY = {'coq_dir': 'C05',
  'harness': 'c05',
  'cases': {'quick': 1500, 'thorough': 400000},
  'consts': [],
- 'rule': 'THREE STREAMS. (1) Manager stream: adaptive seeded event histories (5-60 events quick, 10-120 thorough) against the real '
-         'TransportManager with a scripted transport: dial requests by peer and by address, address additions, open/negotiate outcomes, '
-         'inbound connections (ids drawn from the shared counter), accept futures, closures, limit configurations from {none,0,1,2,3}; 85% '
-         'follow the transport contract and end with a settle phase (all owed answers delivered, every peer re-dialled), 15% add '
-         'infeasible noise (unknown ids, failing transport calls, failing accepts). 9% of the events are dial_address calls with arbitrary '
-         'multiaddress shapes from the C10 grammar (accepted shapes, missing /p2p, components after the peer id, wrong first/second '
-         "component, ws/quic shapes, the node's own listen address). After every event the transport calls, protocol notifications, "
-         'manager events, return code and a dump of peer states / pending / counted sets are compared with the extracted Coq model. (2) '
-         'transport streams (harness/src/c05_tcp.rs; first number 9000 TCP / 9001 WebSocket / 9002 QUIC; one TCP and one WebSocket case in '
-         '20 quick / 600 thorough; QUIC: the aux stream of the thorough tier, the harness built a second time with --features quic, 500 '
-         'cases + corpus/C05-quic): the REAL TcpTransport / WebSocketTransport / QuicTransport (VerifTcpTransport / VerifWsTransport / '
-         'VerifQuicTransport facades) is driven over loopback sockets through its Transport trait and Stream::poll_next (polled until '
-         'Pending without a self-wake) with adaptive call sequences (5-40 steps quick, 8-70 thorough, max_parallel_dials from {8,1,2,3}): '
-         'ids drawn from the shared counter, dial, open with 0-5 addresses, negotiate (incl. the manager pattern cancel+negotiate without '
-         'a poll between), cancel before / after completion, accept / reject, inbound connections with accept_pending / reject_pending, '
+ 'rule': 'THREE STREAMS. (1) Manager stream: adaptive seeded event histories (5-60 events quick, 10-120 thorough) against the '
+         'real TransportManager with TWO scripted transports (TCP and WebSocket; 70% of the cases install both, the others TCP '
+         'only or WebSocket only) and through the real user-facing TransportManagerHandle: dial requests by peer (manager.dial, '
+         'and handle.dial whose command travels over the real command channel and is executed by next()), by address '
+         '(manager.dial_address, handle.dial_address), address additions (handle.add_known_address) of a tcp and/or a /ws '
+         'address per peer, open outcomes per (connection id, transport) in every order (fail/fail, fail/opened, opened first, '
+         'inbound connection wins while both transports are owed), negotiate outcomes, inbound connections (ids drawn from the '
+         'shared counter), accept futures, closures, limit configurations from {none,0,1,2,3} incl. free outbound capacity 1 '
+         "with both kinds of addresses stored (the implementation's choice of transports is read from the Opening state it "
+         'created, written into the case and validated by the oracle: choice_ok); 85% follow the transport contract (mirrored '
+         'per (id, transport) by the generator) and end with a settle phase (all owed answers delivered, every peer re-dialled), '
+         '15% add infeasible noise (unknown ids, failing open on either or both transports, failing dial/negotiate/accept). 9% '
+         'of the events are dial_address calls with arbitrary multiaddress shapes from the C10 grammar (accepted tcp and ws '
+         "shapes, missing /p2p, components after the peer id, wrong first/second component, quic shapes, the node's own listen "
+         "address, a peer's canonical address). After every event the calls each transport saw (tagged with the transport), "
+         'protocol notifications, manager events (OpenFailure with its error count), return code and a dump of peer states '
+         '(Opening with its transport mask) / address book by kind / pending / counted sets / opening_errors are compared with '
+         'the extracted Coq model. (2) transport streams (harness/src/c05_tcp.rs; first number 9000 TCP / 9001 WebSocket / 9002 '
+         'QUIC; one TCP and one WebSocket case in 20 quick / 600 thorough; QUIC: the aux stream of the thorough tier, the '
+         'harness built a second time with --features quic, 500 cases + corpus/C05-quic): the REAL TcpTransport / '
+         'WebSocketTransport / QuicTransport (VerifTcpTransport / VerifWsTransport / VerifQuicTransport facades) is driven over '
+         'loopback sockets through its Transport trait and Stream::poll_next (polled until Pending without a self-wake) with '
+         'adaptive call sequences (5-40 steps quick, 8-70 thorough, max_parallel_dials from {8,1,2,3}): ids drawn from the '
+         'shared counter, dial, open with 0-5 addresses, negotiate (incl. the manager pattern cancel+negotiate without a poll '
+         'between), cancel before / after completion, accept / reject, inbound connections with accept_pending / reject_pending, '
          'polls; 15% of the TCP / WebSocket cases also reuse or invent ids (QUIC cases keep to owners that draw their ids, see '
-         'level_note). Every address is built in the shape of the transport under test and points at a gate (a loopback TCP listener / UDP '
-         'relay that connects through to one of two further real transports of the same kind, nodes A and B with different identities, '
-         'holds the bytes and is released by the harness: pass or close), at a closed port, is malformed, is a well-formed address of '
-         'ANOTHER transport (ws-shaped for TCP, tcp-shaped for WebSocket / QUIC), or (WebSocket) is a /wss address, and independently '
-         'NAMES a peer (none, A, B, nobody): an address without /p2p is an attempt for TCP and is refused by WebSocket / QUIC; listeners '
-         'that complete the handshake, stall, close at once, or answer with a different identity than the address names (on the dial path '
-         'and on the open+negotiate path, also as the first of several addresses); 3% of the cases instead use a 250 ms '
-         'connection_open_timeout and let a stalled dial, a stalled open and (TCP, WebSocket) the overall open deadline time out. The '
-         'harness ends one attempt at a time (the completion order of the inner futures is decided by construction) and feeds that order '
-         'to the model as events; the model side builds the same multiaddresses in the C10 grammar (coq/Tcp/Glue.v addr_of) and decides '
-         'with expect_of of coq/Tcp/Variants.v whether the transport takes them; after every step the call result, the TransportEvents '
-         'polled (kind, connection id, authenticated peer, endpoint direction), the warn/debug lines of the branches of poll_next that '
-         'drop a future (log tap) and a dump of pending_dials / pending_inbound_connections / opened (opened_raw) / cancel_futures (with '
-         'is_aborted) / pending_open and the lengths of the two future sets are compared with the extracted Coq model (coq/Tcp). A panic '
-         'of the implementation ends the case with the panic marker as its trace. prop_ok of these streams is the transport contract '
-         "judged on the implementation's own trace: open-phase events only for an owed open, outbound ConnectionEstablished (dialer "
-         'endpoint) / DialFailure only for an owed negotiate, ConnectionEstablished names a peer the address of that id names, dial '
-         'succeeds exactly on an address the transport parses, negotiate succeeds exactly on an opened id, no owed answer is dropped, '
-         'inbound ids come from the shared counter. Non-trivial: trace >= 8 numbers; distinct (case, trace) pairs are counted.',
- 'level_text': 'Proof: the dial ledger is an inductive invariant (LInv) of the manager model over every event history the transport '
-               "contract allows and every limit configuration: every pending attempt is owed an answer by the transport and is its peer's "
-               'dial record, ids are fresh, terminal outputs close an attempt for good; consequences proved for all feasible histories: no '
-               'connection id is named by two terminal outputs, at quiescence every accepted attempt has a terminal output or was '
-               'superseded by a reported connection of the same peer or belongs to the recorded finding (limit-rejected outbound '
-               'connection), and no peer is wedged; plus per-handler theorems (re-dial attempted, failure consumes the attempt, limit '
-               'rejection clears the dial record, panics need contradictory ids). The same ledger is evaluated by the extracted oracle on '
-               "the implementation's own traces; the model is tied to manager/mod.rs step by step. The transport contract assumed by that "
-               'invariant is PROVED for a model of TcpTransport (coq/Tcp: the Transport trait methods and poll_next over pending_dials, '
+         'level_note). Every address is built in the shape of the transport under test and points at a gate (a loopback TCP '
+         'listener / UDP relay that connects through to one of two further real transports of the same kind, nodes A and B with '
+         'different identities, holds the bytes and is released by the harness: pass or close), at a closed port, is malformed, '
+         'is a well-formed address of ANOTHER transport (ws-shaped for TCP, tcp-shaped for WebSocket / QUIC), or (WebSocket) is '
+         'a /wss address, and independently NAMES a peer (none, A, B, nobody): an address without /p2p is an attempt for TCP and '
+         'is refused by WebSocket / QUIC; listeners that complete the handshake, stall, close at once, or answer with a '
+         'different identity than the address names (on the dial path and on the open+negotiate path, also as the first of '
+         'several addresses); 3% of the cases instead use a 250 ms connection_open_timeout and let a stalled dial, a stalled '
+         'open and (TCP, WebSocket) the overall open deadline time out. The harness ends one attempt at a time (the completion '
+         'order of the inner futures is decided by construction) and feeds that order to the model as events; the model side '
+         'builds the same multiaddresses in the C10 grammar (coq/Tcp/Glue.v addr_of) and decides with expect_of of '
+         'coq/Tcp/Variants.v whether the transport takes them; after every step the call result, the TransportEvents polled '
+         '(kind, connection id, authenticated peer, endpoint direction), the warn/debug lines of the branches of poll_next that '
+         'drop a future (log tap) and a dump of pending_dials / pending_inbound_connections / opened (opened_raw) / '
+         'cancel_futures (with is_aborted) / pending_open and the lengths of the two future sets are compared with the extracted '
+         'Coq model (coq/Tcp). A panic of the implementation ends the case with the panic marker as its trace. prop_ok of these '
+         "streams is the transport contract judged on the implementation's own trace: open-phase events only for an owed open, "
+         'outbound ConnectionEstablished (dialer endpoint) / DialFailure only for an owed negotiate, ConnectionEstablished names '
+         'a peer the address of that id names, dial succeeds exactly on an address the transport parses, negotiate succeeds '
+         'exactly on an opened id, no owed answer is dropped, inbound ids come from the shared counter. Non-trivial: trace >= 8 '
+         'numbers; distinct (case, trace) pairs are counted.',
+ 'level_text': 'Proof: the dial ledger is an inductive invariant (LInv) of the manager model over every event history the '
+               'transport contract allows and every configuration (limits, installed transports), with dial attempts owed by '
+               "SEVERAL transports in parallel: every pending attempt is owed an answer and is its peer's dial record, the "
+               'transports that still owe an open answer for an id are exactly the transport set of the Opening state '
+               '(non-empty, installed only), ids are fresh, terminal outputs close an attempt for good, the address book holds '
+               'installed kinds only (KInv, inductive over every history); consequences proved for all feasible histories: no '
+               'connection id is named by two terminal outputs, at quiescence every accepted attempt has a terminal output or '
+               'was superseded by a reported connection of the same peer or belongs to the recorded finding (limit-rejected '
+               'outbound connection), no peer is wedged, no panic site is reached; OpenFailure is reported exactly by the '
+               'failure of the last transport of the set (with the accumulated error count) and a non-last failure is silent and '
+               'keeps the attempt owed; ConnectionOpened cancels on every transport of the set, negotiates on the winner only '
+               'and ends the open phase; an inbound connection cancels on all transports and leaves nothing owed; the handle '
+               'gate (TransportManagerHandle::dial / dial_address) is sound and agrees with the manager on the same state, the '
+               'only refusal of a queued command being the connection limit (finding class 2); plus per-handler theorems '
+               '(re-dial attempted on every transport of any allowed choice, failure consumes the attempt, limit rejection '
+               'clears the dial record, panics need contradictory ids or an uninstalled transport in an Opening set, which the '
+               'invariant excludes; C05_uninstalled_transport_refuted shows what would happen otherwise). The same ledger is '
+               "evaluated by the extracted oracle on the implementation's own traces; the model is tied to "
+               'manager/{mod,peer_state,limits,handle}.rs step by step. The transport contract assumed by that invariant is '
+               'PROVED for a model of TcpTransport (coq/Tcp: the Transport trait methods and poll_next over pending_dials, '
                'pending_raw_connections + cancel_futures/is_aborted, opened, pending_connections, pending_inbound_connections, '
-               'pending_open, plus the futures built by dial/open: per-address attempts carrying the peer the address names, first success '
-               'wins, Failed when none is left) for every history of calls and future completions: (a) ConnectionOpened/OpenFailure only '
-               'for an owed open (needs an earlier open(c), at most once, never after cancel(c)) for ANY owner; (b) outbound '
-               'ConnectionEstablished/DialFailure only for an owed dial/negotiate, at most once; (c) open and well-formed dial succeed, '
-               'negotiate(c) succeeds exactly when ConnectionOpened c was emitted and not negotiated since; (d) every completed future of '
-               'an un-cancelled call is answered by the poll that observes it: the silent branches of poll_next (two "raw connection '
-               'without a cancel handle", the foreign is_aborted handle, a dial failing without a pending_dials entry) are unreachable, '
-               'what is owed is backed by a pending future; (e) ids: outbound ids come from the owner, inbound ids are the next counter '
-               'value; identity: an outbound ConnectionEstablished names a peer the addresses of that id name (an answer by another '
-               "identity ends in a failure). (b), (d), (e) assume the owner's hygiene caller_ok (ids passed to dial/open were drawn from "
-               'the shared counter and are used once), shown necessary by a witness. Over whole histories (Once.v, a token argument on the '
-               'ghost state): an id is answered by at most one of ConnectionOpened / OpenFailure and by at most one of outbound '
-               'ConnectionEstablished / DialFailure, what is still owed has not been answered, nothing is answered for an id the owner '
-               'never passed in. Never silence (Settle.v, a measure argument over owed opens + owed negotiates + addresses still being '
-               'tried, using the progress theorems): from every reachable state the environment has a finite schedule of attempts ending '
-               'and polls after which nothing is owed, and an environment event takes an id out of the owed sets only by emitting its '
-               'answer; a refused dial changes nothing and an open none of whose addresses the transport takes is answered by OpenFailure '
-               'at the next poll. The SAME contract is proved for WebSocketTransport and QuicTransport (C05_tr_* / C05_ws_* / C05_quic_*): '
-               'the three transports keep the same books with the same poll_next, and differ in their front end, which is modelled per '
-               'transport over the multiaddress grammar of coq/C10 (Variants.v: expect_of = which addresses dial accepts and which '
-               'addresses of an open become attempts: TCP multiaddr_to_socket_address, optional /p2p; WebSocket multiaddr_into_url, '
-               '/ws|/wss and /p2p required; QUIC get_socket_address, /quic-v1 and /p2p required; QUIC has no overall open deadline); every '
-               'history of a transport is a history of the bookkeeping model (refinement C05_tr_refines_model), so (a)-(e), the progress '
-               'theorems and the at-most-once theorems hold per transport; in addition: dial returns Ok exactly on an address the '
-               'transport parses, open never fails, every address TransportManager can hand over (the shapes dial_address lets through, '
-               'coq/Mgr/DialShape.v; the `supported` addresses of the store, routed by `route`) is accepted by the transport it is routed '
-               'to and the expected peer is the dialled one, WebSocket and QUIC report an outbound connection only for a peer an address '
-               'names literally. The model is tied to tcp/mod.rs, websocket/mod.rs and quic/mod.rs by the transport streams.',
- 'level_note': 'Trusted: Coq kernel, extraction, harness + ScriptedTransport hook. Transport contract `feas` (calls succeed, each is '
-               'answered once unless cancelled, cancel is effective, the reported peer is the dialled one): no longer an assumption for '
-               'TCP, WebSocket and QUIC: it is proved for the model coq/Tcp (+ the per-transport front ends of Variants.v) and tied to '
-               'tcp/mod.rs, websocket/mod.rs (quick + thorough tier) and quic/mod.rs (thorough tier only: aux stream, harness built with '
-               '--features quic) by the transport streams; still assumed there: the negotiation (connection.rs negotiate_connection) '
-               'authenticates the remote and honours its dialed_peer argument (exercised with real handshakes, not modelled), timeouts '
-               'fire (connection_open_timeout / the dial deadline are the model events "attempt failed" / EExpire; 3% of the '
-               'transport-stream cases and the stored timeout cases, e.g. corpus/C05/tcp_timeouts.case run with a 250 ms timeout and end '
-               'one future at a time by waiting, all other cases use 60 s timeouts that never fire), tokio wakes ready futures, the OS '
-               'delivers socket events, the listener does not terminate; the composition of the TCP model with the manager model '
-               '(caller_ok is what the manager does: ids come from next_connection_id, li_fresh) is stated, not proved; "accept futures '
-               'succeed" is still an assumption; QUIC: the code tells a dialed from an accepted connection by its pending_dials entry (TCP '
-               "/ WebSocket carry the endpoint inside the negotiated connection); the model's endpoint direction is TCP's, the two "
-               'coincide for an owner that draws its ids (invariant c_conn_dial), so the QUIC stream keeps to such owners and the dump '
-               "maps QUIC's pending_dials to the model's plus the ids of pending negotiate futures; QUIC has no log line for a failed "
-               'inbound handshake (that mark is not compared for QUIC); which of the addresses of an open are in flight at a time '
-               '(max_parallel_dials / buffer_unordered; QUIC: all) is not modelled: the model lets the environment answer any attempt that '
-               'is left, a superset; /wss: the TLS layer is environment (exercised against a plain listener: the attempt fails; F-C05g); '
-               'the transports are modelled one at a time (the multi-transport Opening of the manager is the other model); the address '
-               "book is abstracted to 'has an address' (scores are C10); `.await` on full protocol channels inside the DialFailure fan-out "
-               'is not modelled.',
- 'trusted_base': ['transport contract of the feasible manager stream: open/dial/negotiate calls succeed, each is answered once unless '
-                  'cancelled, the reported peer is the dialled one: for TCP, WebSocket and QUIC proved for the model coq/Tcp (C05_tcp_* / '
-                  'C05_tr_* / C05_ws_* / C05_quic_* theorems) and tied to the code by the transport streams (QUIC: thorough tier only); '
-                  'what remains trusted: noise/yamux negotiation authenticates the remote and compares it with dialed_peer, timeouts fire, '
-                  'tokio, the OS; accept futures succeed (assumed)',
-                  'owner hygiene caller_ok of the TCP theorems (ids passed to dial/open were drawn from the shared counter, each used '
-                  'once) is what TransportManager does (next_connection_id; li_fresh in LInv); the composition of the two models is not '
-                  'proved',
+               'pending_open, plus the futures built by dial/open: per-address attempts carrying the peer the address names, '
+               'first success wins, Failed when none is left) for every history of calls and future completions: (a) '
+               'ConnectionOpened/OpenFailure only for an owed open (needs an earlier open(c), at most once, never after '
+               'cancel(c)) for ANY owner; (b) outbound ConnectionEstablished/DialFailure only for an owed dial/negotiate, at '
+               'most once; (c) open and well-formed dial succeed, negotiate(c) succeeds exactly when ConnectionOpened c was '
+               'emitted and not negotiated since; (d) every completed future of an un-cancelled call is answered by the poll '
+               'that observes it: the silent branches of poll_next (two "raw connection without a cancel handle", the foreign '
+               'is_aborted handle, a dial failing without a pending_dials entry) are unreachable, what is owed is backed by a '
+               'pending future; (e) ids: outbound ids come from the owner, inbound ids are the next counter value; identity: an '
+               'outbound ConnectionEstablished names a peer the addresses of that id name (an answer by another identity ends in '
+               "a failure). (b), (d), (e) assume the owner's hygiene caller_ok (ids passed to dial/open were drawn from the "
+               'shared counter and are used once), shown necessary by a witness. Over whole histories (Once.v, a token argument '
+               'on the ghost state): an id is answered by at most one of ConnectionOpened / OpenFailure and by at most one of '
+               'outbound ConnectionEstablished / DialFailure, what is still owed has not been answered, nothing is answered for '
+               'an id the owner never passed in. Never silence (Settle.v, a measure argument over owed opens + owed negotiates + '
+               'addresses still being tried, using the progress theorems): from every reachable state the environment has a '
+               'finite schedule of attempts ending and polls after which nothing is owed, and an environment event takes an id '
+               'out of the owed sets only by emitting its answer; a refused dial changes nothing and an open none of whose '
+               'addresses the transport takes is answered by OpenFailure at the next poll. The SAME contract is proved for '
+               'WebSocketTransport and QuicTransport (C05_tr_* / C05_ws_* / C05_quic_*): the three transports keep the same '
+               'books with the same poll_next, and differ in their front end, which is modelled per transport over the '
+               'multiaddress grammar of coq/C10 (Variants.v: expect_of = which addresses dial accepts and which addresses of an '
+               'open become attempts: TCP multiaddr_to_socket_address, optional /p2p; WebSocket multiaddr_into_url, /ws|/wss and '
+               '/p2p required; QUIC get_socket_address, /quic-v1 and /p2p required; QUIC has no overall open deadline); every '
+               'history of a transport is a history of the bookkeeping model (refinement C05_tr_refines_model), so (a)-(e), the '
+               'progress theorems and the at-most-once theorems hold per transport; in addition: dial returns Ok exactly on an '
+               'address the transport parses, open never fails, every address TransportManager can hand over (the shapes '
+               'dial_address lets through, coq/Mgr/DialShape.v; the `supported` addresses of the store, routed by `route`) is '
+               'accepted by the transport it is routed to and the expected peer is the dialled one, WebSocket and QUIC report an '
+               'outbound connection only for a peer an address names literally. The model is tied to tcp/mod.rs, '
+               'websocket/mod.rs and quic/mod.rs by the transport streams. COMPOSITION (coq/C05/TcpCompose.v, theorems '
+               'C05_sys_*): the manager model and the TcpTransport model are plugged into each other — every call the manager '
+               'model makes (open with the addresses of the dialled peer, dial, negotiate, cancel, accept, reject, '
+               'accept_pending, reject_pending, and next_connection_id as a draw from the shared counter) is executed by the TCP '
+               'model, every event a poll of the TCP model emits is handled by the manager model one after the other (its calls '
+               "executed before the next event is handled; the negotiate / accept results the handlers see are the TCP model's), "
+               'with TCP as the one installed transport (the per-transport contract theorems C05_tr_* hold for the WebSocket and '
+               'QUIC models as well; the composition theorem itself is stated for TCP). For EVERY history of outside inputs '
+               '(user / protocol side: dial requests by peer and by address incl. through the handle, address additions, closed '
+               'connections, accept futures; network / runtime: a socket arrives, an attempt of a pending future ends with an '
+               'identity or fails, a deadline fires, a poll) the manager is handed an event history that satisfies the transport '
+               "contract `feas` (C05_sys_feasible, C05_sys_step; proof: a coupling invariant between the manager's ledger and "
+               "the ledger of the TCP contract — what the manager thinks TCP owes is what TCP's ledger says, same peer named, "
+               'same counter — kept while the events of one poll are delivered one by one, using the C05_tcp contract theorems, '
+               "commutation of the manager's calls with the events not delivered yet, and the shape of a poll: events about "
+               'inbound sockets come last). Hence C05_sys_at_most_one_outcome, C05_sys_no_silence, C05_sys_no_wedge, '
+               'C05_sys_no_stuck hold for manager + TCP together with NO assumption about the transport; what is still assumed '
+               'is only the part of `feas` about the address store (choice_ok), the protocols (accept futures succeed) and that '
+               'open() / dial() of a shape-checked address return Ok (true in the TCP model). The network assumption is '
+               "explicit: quiescence is a statement about the TCP model's own ledger (C05_sys_quiescent), whatever the manager "
+               'waits for is backed by a pending un-cancelled future of the TCP model (C05_sys_owed_is_pending), and for each '
+               'such id there is an allowed network / runtime input — the deadline of the open fires, the dial attempt ends, the '
+               'transport is polled — whose handling hands the manager an answer for that id (C05_sys_progress): the only '
+               'liveness assumption left is that the network lets every pending future end (answer, failure or timeout) and the '
+               'runtime polls the transport.',
+ 'level_note': 'Trusted: Coq kernel, extraction, harness + ScriptedTransport hooks. Transport contract `feas` (calls succeed, '
+               'each open is answered once per transport unless cancelled on it, cancel is effective, accept futures succeed, '
+               'events come from installed transports) is an assumption of the C05 ledger theorems; it is a THEOREM about the '
+               'transport models of all three socket transports (C05_tcp_* / C05_tr_*, see below), and the composition with the '
+               'manager model is proved for TCP as the only installed transport (C05_sys_*); in the manager stream two of the '
+               'three transports (TCP, WebSocket) are installed as scripted transports, QUIC is compiled out of the default '
+               'harness build; the address book is abstracted to the set of stored addresses (which of them '
+               'AddressStore::addresses(limit) hands out is an input validated by choice_ok; scores are C10; fewer than 64 '
+               'addresses per peer so that no eviction happens); the handle call and the execution of its command happen in one '
+               'step (the asynchronous gap between them is not modelled: C05_handle_gate_agrees is about the same state); '
+               'ChannelClogged is modelled as a possible result (clog) but never driven; `.await` on full protocol channels '
+               'inside the DialFailure fan-out is not modelled. For TCP, WebSocket and QUIC the contract is no longer an '
+               'assumption: it is proved for the model coq/Tcp (+ the per-transport front ends of Variants.v) and tied to '
+               'tcp/mod.rs, websocket/mod.rs (quick + thorough tier) and quic/mod.rs (thorough tier only: aux stream, harness '
+               'built with --features quic) by the transport streams; still assumed there: the negotiation (connection.rs '
+               'negotiate_connection) authenticates the remote and honours its dialed_peer argument (exercised with real '
+               'handshakes, not modelled), timeouts fire (connection_open_timeout / the dial deadline are the model events '
+               '"attempt failed" / EExpire; 3% of the transport-stream cases and the stored timeout cases '
+               '(corpus/C05/tcp_timeouts.case, ws_transport.case) run with a 250 ms timeout and end one future at a time by '
+               'waiting, all other cases use 60 s timeouts that never fire), tokio wakes ready futures, the OS delivers socket '
+               'events, the listener does not terminate; the composition of the TCP model with the manager model is PROVED '
+               '(C05_sys_*) for configurations with TCP as the only installed transport; in it the owner hygiene caller_ok of '
+               'the TCP theorems is discharged (the manager draws every id it passes to open / dial from the shared counter '
+               'right before the call, at most one such call per step: Mgr/Calls.v), the glue is part of the statement: all '
+               'addresses of one open / dial call name the dialled peer (every stored address ends in /p2p/<peer>; C10), a dial '
+               "address that passed the manager's shape check parses in TCP (valid = true), a failure event carries an address "
+               "of the call (the peer is read from the TCP ledger's g_att), one poll = poll_next until Pending with the manager "
+               'handling the batch in order (the granularity at which the TCP model is tied to tcp/mod.rs); for a second '
+               "installed transport (WebSocket) the COMPOSITION is not proved (the manager's theorems then rest on `feas` as an "
+               'assumption about the pair of transports), although each transport model satisfies its own contract (C05_tr_*); '
+               '"accept futures succeed" is still an assumption; QUIC: the code tells a dialed from an accepted connection by '
+               "its pending_dials entry (TCP / WebSocket carry the endpoint inside the negotiated connection); the model's "
+               "endpoint direction is TCP's, the two coincide for an owner that draws its ids (invariant c_conn_dial), so the "
+               "QUIC stream keeps to such owners and the dump maps QUIC's pending_dials to the model's plus the ids of pending "
+               'negotiate futures; QUIC has no log line for a failed inbound handshake (that mark is not compared for QUIC); '
+               'which of the addresses of an open are in flight at a time (max_parallel_dials / buffer_unordered; QUIC: all) is '
+               'not modelled: the model lets the environment answer any attempt that is left, a superset; /wss: the TLS layer is '
+               'environment (exercised against a plain listener: the attempt fails; F-C05g); the transport models are proved one '
+               "at a time (the multi-transport Opening is the manager model's side).",
+ 'trusted_base': ['transport contract of the feasible manager stream: open/dial/negotiate calls succeed, each is answered once '
+                  'unless cancelled, the reported peer is the dialled one: for TCP, WebSocket and QUIC proved for the model '
+                  'coq/Tcp (C05_tcp_* / C05_tr_* / C05_ws_* / C05_quic_* theorems) and tied to the code by the transport streams '
+                  '(QUIC: thorough tier only); what remains trusted: noise/yamux negotiation authenticates the remote and '
+                  'compares it with dialed_peer, timeouts fire, tokio, the OS; accept futures succeed (assumed)',
+                  'composition manager + TCP (C05_sys_*): proved for the two MODELS; the glue between them (which calls are '
+                  'forwarded, what an event looks like to the manager, the shared counter) is a definition in '
+                  'coq/C05/TcpCompose.v checked by a concrete composed history (C05_sys_history), not by a separate harness '
+                  'stream: each model is tied to its code separately (manager stream with scripted transports, TCP stream with '
+                  'the real TcpTransport); remaining assumptions there: choice_ok (address store), accept futures succeed '
+                  '(protocols alive, C07), network liveness (every pending future ends or times out, the transport is polled)',
                   'connection ids: inbound ids are drawn from the counter shared with the manager (AllocConn event / '
                   'verif_alloc_connection_id hook)',
-                  'multiaddress grammar and socket-address parsers of coq/C10/Model.v (tied to common/listener.rs and quic/listener.rs by '
-                  'the C10 stream); ws_url of coq/Tcp/Variants.v is a transcription of WebSocketTransport::multiaddr_into_url, tied by the '
-                  'WebSocket stream (dial results and attempt tables for every address shape the harness builds: own shape with and '
-                  'without /p2p, /wss, foreign, malformed)'],
- 'assumptions': ['manager stream: single installed transport (default cargo features of the harness build)',
+                  'the invariant "only installed kinds are stored" (KInv) is proved for add_known_address (supported_transport '
+                  'filter) and dial_address (shape + installed check); for addresses REPORTED by transports (DialFailure / '
+                  'OpenFailure / ConnectionOpened / ConnectionEstablished) it rests on the harness: a scripted transport only '
+                  'reports the canonical address of its own kind (a real transport reports the addresses it was handed by the '
+                  'manager)',
+                  'TransportManagerHandle: the ChannelClogged / TaskClosed results of try_send are not driven by the harness '
+                  '(the channel never fills: every command is executed in the step that queued it)',
+                  'multiaddress grammar and socket-address parsers of coq/C10/Model.v (tied to common/listener.rs and '
+                  'quic/listener.rs by the C10 stream); ws_url of coq/Tcp/Variants.v is a transcription of '
+                  'WebSocketTransport::multiaddr_into_url, tied by the WebSocket stream (dial results and attempt tables for '
+                  'every address shape the harness builds: own shape with and without /p2p, /wss, foreign, malformed)'],
+ 'assumptions': ['manager stream: two installed transports at most (TCP, WebSocket: cargo feature websocket on, quic off in the '
+                 'default harness build)',
                  'debug build: a reachable debug_assert!(false) shows up as a panic',
-                 'transport streams: loopback sockets / UDP relay; a completion that does not show up within 20 s is recorded as a missing '
-                 'answer',
-                 'QUIC stream: only in the thorough tier (second harness build with --features quic); a failing QUIC attempt ends by its '
-                 'idle timeout, so failing answers are generated only in the short-timeout cases'],
+                 'fewer than MAX_ADDRESSES (64) distinct addresses per peer (no eviction from the address store; at most 40 '
+                 'dial_address shapes per case)',
+                 'transport streams: loopback sockets / UDP relay; a completion that does not show up within 20 s is recorded as '
+                 'a missing answer',
+                 'QUIC stream: only in the thorough tier (second harness build with --features quic); a failing QUIC attempt '
+                 'ends by its idle timeout, so failing answers are generated only in the short-timeout cases'],
  'aux_stream': {'tiers': ['thorough'],
                 'features': 'quic',
                 'target_dir': 'target-quic',
